@@ -19,12 +19,13 @@ theorem datetime_params_convert : defs.all (fun d => d.params.all (paramOk d)) =
 theorem modelled_signatures : instantSensitive.all (sensitiveOk defs) = true := by
   decide +kernel
 
-/-- the table is not empty, has converting and bare datetime parameters, and the bare ones are exactly
-    as many as the field readers -/
+/-- non-vacuity: the table has definitions, many with a converting datetime parameter, and the lookups of
+    the model find them -/
 theorem table_kinds :
     defs.length ≥ 40 ∧
     (defs.filter (fun d => d.params.any (·.kind == .dtConv))).length ≥ 15 ∧
-    (defs.filter (fun d => d.params.any (·.kind == .dtBare))).length ≤ naiveInsensitive.length := by
+    (findDef defs (prop ['u', 't', 'c']) [.dt]).isSome = true ∧
+    (findDef defs (oper ['-']) [.dt, .dt]).map dtClasses = some [.conv, .conv] := by
   decide +kernel
 
 end Yaql.Props.C20Gen
